@@ -812,4 +812,145 @@ theorem MTs.pruneOr_spec (subSem : Sub → Nat → Bool) (lineSem : MTs → Nat 
     | some h' => rw [hp] at rh; simp only [MTs.semAny, rh d, rt]
 end
 
+
+/-! ## the document loop of `Search` -/
+
+/-- the documents at or after `L` (among the next `k`) that satisfy `p`, in order -/
+def expFrom (p : Nat → Bool) : Nat → Nat → List Nat
+  | 0, _ => []
+  | k + 1, L => if p L then L :: expFrom p k (L + 1) else expFrom p k (L + 1)
+
+theorem expFrom_eq_filter (p : Nat → Bool) : ∀ k L, expFrom p k L = (List.range' L k).filter p := by
+  intro k
+  induction k with
+  | zero => intro L; simp [expFrom]
+  | succ k ih =>
+    intro L
+    simp only [expFrom, List.range'_succ, List.filter_cons, ih]
+
+theorem expFrom_skip (p : Nat → Bool) : ∀ k L nd, L ≤ nd → nd ≤ L + k → (∀ d, L ≤ d → d < nd → p d = false) →
+    expFrom p k L = expFrom p (k - (nd - L)) nd := by
+  intro k
+  induction k with
+  | zero => intro L nd h1 h2 _; have : nd = L := by omega
+            subst this; simp
+  | succ k ih =>
+    intro L nd h1 h2 h3
+    by_cases he : nd = L
+    · subst he; simp
+    · have hp : p L = false := h3 L (Nat.le_refl _) (by omega)
+      simp only [expFrom, hp, Bool.false_eq_true, if_false]
+      rw [ih (L + 1) nd (by omega) (by omega) (fun d hd1 hd2 => h3 d (by omega) hd2)]
+      congr 1; omega
+
+theorem nextLive_spec (live : List Bool) : ∀ fuel d, d + fuel ≥ live.length →
+    d ≤ nextLive live fuel d ∧
+    (∀ x, d ≤ x → x < nextLive live fuel d → live.getD x false = false) ∧
+    (nextLive live fuel d < live.length → live.getD (nextLive live fuel d) false = true) := by
+  intro fuel
+  induction fuel with
+  | zero =>
+    intro d hd
+    simp only [nextLive]
+    exact ⟨Nat.le_refl _, fun x h1 h2 => by omega, fun h => by omega⟩
+  | succ fuel ih =>
+    intro d hd
+    simp only [nextLive]
+    by_cases hc : d < live.length ∧ live.getD d false = false
+    · simp only [hc, and_self, if_true]
+      obtain ⟨i1, i2, i3⟩ := ih (d + 1) (by omega)
+      refine ⟨by omega, ?_, i3⟩
+      intro x h1 h2
+      by_cases hx : x = d
+      · subst hx; exact hc.2
+      · exact i2 x (by omega) h2
+    · simp only [hc, if_false]
+      refine ⟨Nat.le_refl _, fun x h1 h2 => by omega, ?_⟩
+      intro hl
+      cases hb : live.getD d false
+      · exact absurd ⟨hl, hb⟩ hc
+      · rfl
+
+/-- what the loop needs from the tree: an invariant `Inv L t` ("documents below `L` are dealt with") under which
+    `nextDoc` never skips a document on which the tree is true, and `prepare` puts the tree in a state whose plain value
+    is that truth; evaluation and the next `nextDoc` keep the invariant. -/
+structure LoopHyp (ctx : Ctx) (truth : Nat → Bool) (Inv : Nat → MT → Prop) : Prop where
+  next : ∀ L t, Inv L t → (∀ d, L ≤ d → d < t.nextDoc.1 → truth d = false) ∧ Inv L t.nextDoc.2
+  prep : ∀ L t nd, Inv L t → L ≤ nd → nd < ctx.live.length →
+    (t.prepare nd).val ctx nd = truth nd ∧ Inv (nd + 1) (evalCosts ctx nd 4 0 (t.prepare nd) []).2.2
+
+theorem searchLoop_spec (ctx : Ctx) (truth : Nat → Bool) (Inv : Nat → MT → Prop) (H : LoopHyp ctx truth Inv) :
+    ∀ (fuel : Nat) (t : MT) (L : Nat) (vs : List (Visit × List (List Nat))) (res : List Nat),
+      Inv L t → ctx.live.length + 1 ≤ L + fuel →
+      (searchLoop ctx fuel t L vs res).res =
+        res.reverse ++ expFrom (fun d => ctx.live.getD d false && truth d) (ctx.live.length - L) L ∧
+      (searchLoop ctx fuel t L vs res).panicked = false := by
+  intro fuel
+  induction fuel with
+  | zero =>
+    intro t L vs res _ hf
+    have : ctx.live.length - L = 0 := by omega
+    simp [searchLoop, this, expFrom]
+  | succ fuel ih =>
+    intro t L vs res hinv hf
+    obtain ⟨hn1, hn2⟩ := H.next L t hinv
+    rw [searchLoop]
+    generalize hnd : t.nextDoc = ndr at hn1 hn2
+    obtain ⟨raw, t1⟩ := ndr
+    simp only at hn1 hn2
+    simp only []
+    generalize hnd0 : (if raw < L then L else raw) = nd0
+    have hnd0L : L ≤ nd0 := by rw [← hnd0]; split <;> omega
+    have hnd0raw : nd0 ≤ L ∨ nd0 ≤ raw := by rw [← hnd0]; split <;> omega
+    obtain ⟨l1, l2, l3⟩ := nextLive_spec ctx.live ctx.live.length nd0 (by omega)
+    generalize hndv : nextLive ctx.live ctx.live.length nd0 = nd at l1 l2 l3
+    -- no document in [L, nd) belongs to the result
+    have hskip : ∀ d, L ≤ d → d < nd → (ctx.live.getD d false && truth d) = false := by
+      intro d h1 h2
+      by_cases hd : d < nd0
+      · have : d < raw := by omega
+        simp [hn1 d h1 this]
+      · rw [l2 d (by omega) h2]; rfl
+    by_cases hge : nd ≥ ctx.live.length
+    · simp only [hge, if_true]
+      refine ⟨?_, trivial⟩
+      by_cases hLl : L ≤ ctx.live.length
+      · have := expFrom_skip (fun d => ctx.live.getD d false && truth d) (ctx.live.length - L) L ctx.live.length
+          hLl (by omega) (fun d h1 h2 => hskip d h1 (by omega))
+        rw [this]
+        have : ctx.live.length - L - (ctx.live.length - L) = 0 := by omega
+        simp [this, expFrom]
+      · have : ctx.live.length - L = 0 := by omega
+        simp [this, expFrom]
+    · simp only [hge, if_false]
+      have hlt : nd < ctx.live.length := by omega
+      obtain ⟨hp1, hp2⟩ := H.prep L t1 nd hn2 (by omega) hlt
+      have hst := staged_eval ctx nd t1
+      generalize hev : evalCosts ctx nd 4 0 (t1.prepare nd) [] = evr at hst hp2
+      obtain ⟨sts, verdict, t3⟩ := evr
+      simp only at hst hp2
+      rw [hp1] at hst
+      subst hst
+      have hlive : ctx.live.getD nd false = true := l3 hlt
+      have hsplit : expFrom (fun d => ctx.live.getD d false && truth d) (ctx.live.length - L) L =
+          expFrom (fun d => ctx.live.getD d false && truth d) (ctx.live.length - nd) nd := by
+        rw [expFrom_skip _ (ctx.live.length - L) L nd (by omega) (by omega) hskip]
+        congr 1; omega
+      have hk : ctx.live.length - nd = (ctx.live.length - (nd + 1)) + 1 := by omega
+      cases htr : truth nd with
+      | true =>
+        simp only []
+        obtain ⟨i1, i2⟩ := ih t3 (nd + 1) _ (nd :: res) hp2 (by omega)
+        refine ⟨?_, i2⟩
+        have hpnd : (ctx.live.getD nd false && truth nd) = true := by rw [hlive, htr]; rfl
+        rw [i1, hsplit, hk, expFrom]
+        simp only [hpnd, if_true, List.reverse_cons, List.append_assoc, List.singleton_append]
+      | false =>
+        simp only []
+        obtain ⟨i1, i2⟩ := ih t3 (nd + 1) _ res hp2 (by omega)
+        refine ⟨?_, i2⟩
+        have hpnd : (ctx.live.getD nd false && truth nd) = false := by rw [hlive, htr]; rfl
+        rw [i1, hsplit, hk, expFrom]
+        simp only [hpnd, Bool.false_eq_true, if_false]
+
 end ZoektModel.C01
